@@ -96,6 +96,13 @@ func checkMQ(c *Case, o *core.Outcome) {
 		}
 	}
 	o.NonTrivial = len(bits) >= 64 && ff >= 1
+	for i := 0; i+1 < len(data); i++ {
+		if data[i] == 0xFF && data[i+1] == 0x8F {
+			o.Label("mq-output-has-FF8F")
+			core.Count("mq_pairs_FF8F", 1)
+		}
+	}
+	core.Count("mq_code_bytes", int64(len(data)))
 	o.Label("mq")
 	o.Label("mq-nctx=%d", nctx)
 	if ff > 0 {
@@ -321,6 +328,8 @@ func Check(c *Case) (o core.Outcome) {
 	switch c.Kind {
 	case "mq":
 		checkMQ(c, &o)
+	case "mqbulk":
+		checkMQBulk(c, &o)
 	case "t1":
 		checkT1(c, &o)
 	case "dwt":
@@ -531,4 +540,88 @@ func TestExhaustive(t *testing.T) {
 	}
 	core.ExhaustiveDone("DWT 5/3: all 1-D signals of length 1..8 over {-2..2}, both origin parities", dw)
 	core.AddSample(map[string]any{"exhaustive": "mq", "bits": fmt.Sprint([]int{1, 0, 1, 1}), "ctx": fmt.Sprint([]int{0, 1, 1, 0})})
+}
+
+// TestMQBulk: long random decision sequences (about 25 MB of MQ code bytes per shard and quick
+// run). Some byte patterns of the coder are only reachable in bulk: the pair FF 8F - an 0xFF
+// followed by a carry and four 1 bits, the largest value the stuffing rule allows - appears
+// about once in 5 x 10^7 output bytes (counter mq_pairs_FF8F), and the decoder's marker test
+// has to let it through.
+func TestMQBulk(t *testing.T) {
+	shard, shards := core.EnvInt("VERIF_SHARD", 0), max(1, core.EnvInt("VERIF_SHARDS", 1))
+	seed := core.EnvInt("VERIF_SEED", 1)
+	chunks := 192
+	if core.Thorough() {
+		chunks = 4096
+	}
+	for k := 0; k < chunks; k++ {
+		if k%shards != shard {
+			continue
+		}
+		c := &Case{Kind: "mqbulk", N: 1 << 24, NCtx: 19, Seed: uint64(seed)*1000003 + uint64(k)}
+		core.Eval(t, ID, "quota", c, Check)
+	}
+}
+
+// checkMQBulk encodes N decisions drawn on the fly from a xorshift generator (context i mod
+// NCtx-ish, bit biased per context) and decodes them again with the generator restarted, so
+// that no N-element slices are needed.
+func checkMQBulk(c *Case, o *core.Outcome) {
+	o.Label("mq")
+	o.Label("mq-bulk")
+	next := func(x *uint64) uint64 {
+		*x ^= *x << 13
+		*x ^= *x >> 7
+		*x ^= *x << 17
+		return *x
+	}
+	gen := func(x *uint64) (int, int) {
+		v := next(x)
+		ctx := int(v % uint64(c.NCtx))
+		// per-context bias between about 6% and 94% ones
+		thr := uint64(1+(ctx*7+int(c.Seed%5))%15) << 28
+		b := 0
+		if (v>>32)&0xFFFFFFFF < thr {
+			b = 1
+		}
+		return b, ctx
+	}
+	st := c.Seed*2685821657736338717 + 88172645463325252
+	if st == 0 {
+		st = 1
+	}
+	enc := mqc.NewMQEncoder(c.NCtx)
+	x := st
+	for i := 0; i < c.N; i++ {
+		b, cx := gen(&x)
+		enc.Encode(b, cx)
+	}
+	data := enc.Flush()
+	pairs := 0
+	for i := 0; i+1 < len(data); i++ {
+		if data[i] == 0xFF {
+			if data[i+1] > 0x8F {
+				o.Fail = core.Failf("mq-marker", "MQ output contains FF%02X at %d", data[i+1], i)
+				return
+			}
+			if data[i+1] == 0x8F {
+				pairs++
+			}
+		}
+	}
+	core.Count("mq_code_bytes", int64(len(data)))
+	core.Count("mq_pairs_FF8F", int64(pairs))
+	if pairs > 0 {
+		o.Label("mq-output-has-FF8F")
+	}
+	o.NonTrivial = true
+	dec := mqc.NewMQDecoder(append([]byte(nil), data...), c.NCtx)
+	x = st
+	for i := 0; i < c.N; i++ {
+		b, cx := gen(&x)
+		if got := dec.Decode(cx); got != b {
+			o.Fail = core.Failf("mq-mismatch", "symbol %d of %d (ctx %d): decoded %d, encoded %d (%d code bytes, %d FF8F pairs)", i, c.N, cx, got, b, len(data), pairs)
+			return
+		}
+	}
 }
